@@ -114,7 +114,14 @@ var c07Traversals = []string{"../x", "../../x", "a/../../x", "..", "../", "a/../
 // strings that look hostile; some are legal names, the others must be rejected (and in no case may anything escape)
 var c07Odd = []string{"/abs", "/", "a/./b", "a//b", "a/", ".", "a..b", "..a", "a..", "...", "..\\x", "a\\..\\b", "....//x", "\x00", "a/\x00/b", " ", "é/..x"}
 
+// parent references spelled with another platform's separator: legal single names here (one odd
+// segment each) - unless something turns the separators into real ones after validation
+var c07Foreign = []string{"..\\x", "..\\..\\x", "..\\..\\..\\x", "..\\..\\..\\..\\..\\x", "d\\..\\..\\..\\x", "..\\l2\\..\\..\\x", "sub/..\\..\\..\\x", "..\\.thruflux_resumedata\\x", "..\\..\\decoy.txt"}
+
 func c07Hostile(r *hx.Rand) string {
+	if r.Intn(6) == 1 {
+		return c07Foreign[r.Intn(len(c07Foreign))]
+	}
 	if r.Intn(6) == 0 {
 		// a traversal inside a path that is also too long (1024 is the protocol's limit):
 		// whichever check comes first must not hide the other
@@ -853,7 +860,7 @@ func c07Corpus() []c07Scn {
 
 func runC07(cfg config) *hx.Report {
 	rep := hx.NewReport("C07")
-	rep.Rule = "(i) strings from a segment grammar (\".\", \"..\", empty, dotted names, backslashes, NUL, long) through Clean/Join/Dir/Trim/validateRelPath/SidecarPath/sidecarIdentifier/validateManifestPaths/resumeSidecarDirs; (ii) scripted senders placing traversal or odd strings in exactly one of manifest.root, a directory item, a file item, item.id, FileBegin.rel_path, or none (benign, with data, name conflicts), against the real receiver in a sandbox nested 9 levels below the run directory with decoy files and resume metadata around the output directory; real-sender transfers; clearResumeData with hostile offered root names. Non-trivial = distinct string, or a run that changed at least one filesystem entry"
+	rep.Rule = "(i) strings from a segment grammar (\".\", \"..\", empty, dotted names, backslashes, NUL, long) through Clean/Join/Dir/Trim/validateRelPath/SidecarPath/sidecarIdentifier/validateManifestPaths/resumeSidecarDirs; (ii) scripted senders placing traversal or odd strings (also parent references spelled with backslashes) in exactly one of manifest.root, a directory item, a file item, item.id, FileBegin.rel_path, or none (benign, with data, name conflicts), against the real receiver in a sandbox nested 9 levels below the run directory with decoy files and resume metadata around the output directory; real-sender transfers; clearResumeData with hostile offered root names. Non-trivial = distinct string, or a run that changed at least one filesystem entry"
 	if err := c07SelfCheck(); err != nil {
 		rep.Violate("harness", "C07 harness self-check failed: "+err.Error(), nil)
 		return rep
